@@ -609,9 +609,13 @@ def r4_7(run):
         run.ob("search|nodes-connected", key(nc) == key(want_nc),
                "nodes_connected is True exactly for the reached nodes other than the virtual node", w, detail=show(nc)[:200])
         ok = key(bc) in {key(expect(ix, f, t, env={"N": nc})) for t in
-                         ("active_branch_lookup & N[branch_pit[:, FROM_NODE]]", "active_branch_lookup & N[branch_pit[:, TO_NODE]]",
+                         ("active_branch_lookup & N[branch_pit[:, FROM_NODE]]",
                           "active_branch_lookup & N[branch_pit[:, FROM_NODE]] & N[branch_pit[:, TO_NODE]]")}
-        run.ob("search|branches-connected", ok, "a branch is connected iff it is active and its end node was reached", w, detail=show(bc)[:200])
+        # the to node alone is not enough: a DIRECTED branch is traversed only from -> to, so its to node can be reached through
+        # other branches while its from node is not; keeping such a branch lets reduce_pit renumber a dropped from node
+        run.ob("search|branches-connected", ok,
+               "a branch is connected iff it is active and its from node was reached (then, by the edges of the search, its to node was too)", w,
+               detail=show(bc)[:200])
     chk = [e for e in r.raises() if e.cond and any(contains(c, From) or contains(c, To) for c, _ in e.cond)]
     run.ob("search|undirected-end-consistency-asserted", len(chk) >= 1,
            "both ends of an undirected active branch must have the same reachability (asserted)", w)
